@@ -221,6 +221,40 @@ func (fr *frame) slice(xt types.Type, x, lo, hi, max value) value {
 		Cap = cap(a)
 	}
 
+	// a window of constant width at a symbolic offset into a constant string (table lookups such
+	// as "\\000\\001..."[b*4:b*4+4]): the result is built from selects instead of enumerating offsets
+	if xs, isStr := x.(string); isStr && max == nil && Len <= 2048 {
+		lt, ok1 := lo.(*Term)
+		ht, ok2 := hi.(*Term)
+		if ok1 && ok2 && lt.w == 64 && ht.w == 64 {
+			k, ok := constWindow(lt, ht)
+			if !ok && lt.op == OpZExt && ht.op == OpZExt && lt.a.w == ht.a.w {
+				// narrow arithmetic (byte*4 : byte*4+4): constant width unless the narrow add wraps
+				if kk, ok2 := constWindow(lt.a, ht.a); ok2 {
+					in := fr.i
+					w := int(lt.a.w)
+					noWrap := in.ts.Cmp(OpUle, lt.a, in.ts.Const(w, (uint64(1)<<uint(w))-1-kk))
+					if fr.decide(fromTermBool(noWrap)) {
+						k, ok = kk, true
+					}
+				}
+			}
+			if ok && k > 0 && k <= 16 && int(k) <= Len {
+				in := fr.i
+				inb := in.ts.Cmp(OpUle, lt, in.ts.Const(64, uint64(Len-int(k))))
+				if !fr.decide(fromTermBool(inb)) {
+					in.rtPanic(fmt.Sprintf("slice bounds out of range [symbolic] with length %d", Len))
+				}
+				bs := strBytes(xs)
+				out := make([]value, k)
+				for i := range out {
+					out[i] = in.selectElem(types.Typ[types.Uint8], bs, in.ts.Bin(OpAdd, lt, in.ts.Const(64, uint64(i))))
+				}
+				return mkString(out)
+			}
+		}
+	}
+
 	l := int64(0)
 	if lo != nil {
 		l = fr.concInt(lo)
@@ -275,6 +309,19 @@ func (fr *frame) slice(xt types.Type, x, lo, hi, max value) value {
 		return []value(a)[l:h:m]
 	}
 	panic(fmt.Sprintf("slice: unexpected X type: %T", x))
+}
+
+// constWindow reports hi-lo when hi is syntactically lo plus a constant.
+func constWindow(lo, hi *Term) (uint64, bool) {
+	if hi.op == OpAdd {
+		if hi.a == lo && hi.b.op == OpConst {
+			return hi.b.k, true
+		}
+		if hi.b == lo && hi.a.op == OpConst {
+			return hi.a.k, true
+		}
+	}
+	return 0, false
 }
 
 // lookup returns x[idx] where x is a map.
@@ -973,6 +1020,7 @@ func (fr *frame) callBuiltin(caller *frame, callpos token.Pos, fn *ssa.Builtin, 
 		case []value:
 			return len(x)
 		case *omap:
+			x.hbRead(caller)
 			return x.len()
 		case *chanv:
 			if x == nil {
@@ -1151,6 +1199,7 @@ func (fr *frame) decodeRuneSym(bs []value) (value, int) {
 func (fr *frame) rangeIter(x value, t types.Type) iter {
 	switch x := x.(type) {
 	case *omap:
+		x.hbRead(fr)
 		return &omapIter{m: x}
 	case string, symstr:
 		return &stringIter{s: x}
